@@ -70,6 +70,23 @@ def configs(tier):
                     seq = tuple(zip(ks, ts))
                     if ok_for(entry, seq):
                         out.append(dict(kind='seq', entry=entry, seq=seq))
+    if tier == 'thorough':
+        for entry in ('run_forever', 'run'):
+            # three instants
+            for n in (2, 3):
+                for ks in itertools.permutations(KINDS, n):
+                    for ts in itertools.product((1, 2, 3), repeat=n):
+                        if list(ts) != sorted(ts) or 3 not in ts:
+                            continue
+                        seq = tuple(zip(ks, ts))
+                        if ok_for(entry, seq):
+                            out.append(dict(kind='seq', entry=entry, seq=seq))
+            # four sources
+            for ks in itertools.permutations('HCMAEXS', 4):
+                for ts in ((1, 1, 1, 1), (1, 1, 2, 2), (1, 2, 2, 2), (1, 1, 1, 2), (1, 2, 3, 3)):
+                    seq = tuple(zip(ks, ts))
+                    if ok_for(entry, seq):
+                        out.append(dict(kind='seq', entry=entry, seq=seq))
     for entry in ('run_forever', 'run'):
         for exc in ('fault', 'cancel'):
             for then in (None, 'H', 'A'):
